@@ -335,6 +335,8 @@ def plans_for(calls, rng, limit=None, crash=True):
             continue      # the standard library's own writability probe of TMPDIR, not the tool's I/O
         for err in ERRORS_FOR.get(kind, ["EIO"])[:1]:
             plans.append({"k": k, "mode": "fail", "err": err})
+        if kind == "write":
+            plans.append({"k": k, "mode": "short", "err": "ENOSPC"})
         if crash and kind in ("write", "open", "close", "seek"):
             plans.append({"k": k, "mode": "torn" if kind == "write" else "crash", "err": ""})
     if limit and len(plans) > limit:
